@@ -13,7 +13,7 @@ use verif_native::*;
 const LIB: &str = "use serde::{Serialize, Deserialize};\n#[derive(Serialize, Deserialize)]\npub struct User { pub id: u32, pub name: String }\n#[tauri::command]\npub fn get_user(id: u32) -> Option<User> { None }\n";
 
 const LIB_ALIAS: &str = "use serde::{Serialize, Deserialize};\n#[derive(Serialize, Deserialize)]\npub struct Settings { pub dark: bool }\n#[derive(Serialize, Deserialize)]\npub struct AppError { pub code: u32 }\n#[derive(Serialize, Deserialize)]\npub struct Unused { pub n: u32, pub inner: Inner }\n#[derive(Serialize, Deserialize)]\npub struct Inner { pub m: u32 }\n#[allow(non_camel_case_types)]\n#[derive(Serialize, Deserialize)]\npub struct point { pub x: i32 }\npub type Result<T> = std::result::Result<T, AppError>;\n#[tauri::command]\npub fn settings() -> Result<Settings> { todo!() }\n#[tauri::command]\npub fn origin() -> Option<point> { None }\n";
-const LIB_EDIT: &str = "use serde::{Serialize, Deserialize};\nuse tauri::Emitter;\nuse tauri::ipc::Channel;\n#[derive(Serialize, Deserialize, Clone)]\n#[serde(rename_all = \"camelCase\")]\npub struct Profile { #[validate(length(min = 1, max = 20))] pub user_name: String, pub age: Option<u32>, #[serde(rename = \"mail\")] pub email: String }\n#[derive(Serialize, Deserialize, Clone)]\npub enum Level { Low, High }\n#[derive(Serialize, Deserialize, Clone)]\npub enum Shape { Dot(u32), Rounded { corner_radius: u32 } }\n#[tauri::command]\npub fn draw(shape: Shape) {}\n#[tauri::command]\npub fn save(app: tauri::AppHandle, user_name: String, retry_count: u32, note: Option<String>, on_progress: Channel<u32>, profile: Profile) -> Result<Level, String> { app.emit(\"saved\", retry_count).ok(); todo!() }\n#[tauri::command]\npub fn greet(first_name: String, last_name: String) -> String { todo!() }\n";
+const LIB_EDIT: &str = "use serde::{Serialize, Deserialize};\nuse tauri::Emitter;\nuse tauri::ipc::Channel;\n#[derive(Serialize, Deserialize, Clone)]\n#[serde(rename_all = \"camelCase\")]\npub struct Profile { #[validate(length(min = 1, max = 20))] pub user_name: String, pub age: Option<u32>, #[serde(rename = \"mail\")] pub email: String }\n#[derive(Serialize, Deserialize, Clone)]\npub enum Level { Low, High }\n#[derive(Serialize, Deserialize, Clone)]\npub enum Shape { Dot(u32), Rounded { corner_radius: u32 } }\n#[tauri::command]\npub fn draw(shape: Shape) {}\n#[tauri::command]\npub fn save(app: tauri::AppHandle, user_name: String, retry_count: u32, note: Option<String>, on_progress: Channel<u32>, profile: Profile) -> Result<Level, String> { app.emit(\"saved\", retry_count).ok(); todo!() }\n#[tauri::command]\npub fn greet(first_name: String, last_name: String) -> String { todo!() }\npub fn again(app: &tauri::AppHandle, again_count: u32) { app.emit(\"saved\", again_count).ok(); }\n";
 
 fn reserved(f: &str) -> bool {
     const R: [&str; 17] = ["types.ts", "types.d.ts", "commands.ts", "commands.d.ts", "events.ts", "events.d.ts", "index.ts", "index.d.ts",
@@ -222,6 +222,32 @@ fn main() {
         }
     }
 
+    // ---------------------------------------------------------------- C04: the parameter case configured in the file given with --config applies, whatever else lies next to that file
+    for mode in ["none", "zod"] {
+        for neighbour in ["none", "tauri.conf.json without typegen section", "tauri.conf.json with typegen section"] {
+            rep.case("configured_parameter_case_reaches_the_cli", &format!("--validation {} --config typegen.json (default_parameter_case = snake_case), next to it: {}", mode, neighbour), &|| {
+                let p = project(&root, &format!("cfg_{}_{}", mode, neighbour.len()), None);
+                let pp = p.join("src-tauri"); let gp = p.join("out");
+                fs::write(pp.join("src/lib.rs"), LIB_EDIT).map_err(|e| e.to_string())?;
+                fs::write(pp.join("typegen.json"), format!("{{ \"project_path\": {:?}, \"output_path\": {:?}, \"validation_library\": {:?}, \"default_parameter_case\": \"snake_case\" }}\n", pp.to_string_lossy(), gp.to_string_lossy(), mode)).map_err(|e| e.to_string())?;
+                match neighbour {
+                    "tauri.conf.json without typegen section" => fs::write(pp.join("tauri.conf.json"), conf_plain).map_err(|e| e.to_string())?,
+                    "tauri.conf.json with typegen section" => fs::write(pp.join("tauri.conf.json"), format!("{{ \"productName\": \"demo\", \"plugins\": {{ \"typegen\": {{ \"projectPath\": {:?}, \"outputPath\": {:?}, \"validationLibrary\": {:?} }} }} }}\n", pp.to_string_lossy(), p.join("elsewhere").to_string_lossy(), mode)).map_err(|e| e.to_string())?,
+                    _ => {}
+                }
+                let (code, text) = run(&cli, &pp, &["generate", "--config", pp.join("typegen.json").to_str().unwrap(), "--force"])?;
+                if code != 0 { return Err(format!("generate --config ended with status {}: {}", code, text.chars().take(300).collect::<String>())); }
+                let t = fs::read_to_string(gp.join("types.ts")).map_err(|e| format!("no types.ts in the output path of the config file: {}", e))?;
+                // the declarations of the parameter object of `save` (interface and, in zod mode, schema)
+                let blocks: String = t.split("\n\n").filter(|b| b.contains("SaveParams")).collect::<Vec<_>>().join("\n");
+                if blocks.is_empty() { return Err("UNPARSED: no declaration of SaveParams".into()); }
+                for k in ["user_name", "retry_count", "on_progress"] { if !blocks.contains(k) { return Err(format!("SaveParams has no key `{}`: the file given with --config sets default_parameter_case = snake_case", k)); } }
+                for k in ["userName", "retryCount", "onProgress"] { if blocks.contains(&format!("{}:", k)) || blocks.contains(&format!("{}?:", k)) { return Err(format!("SaveParams has the key `{}` although the file given with --config sets default_parameter_case = snake_case", k)); } }
+                Ok("ok".into())
+            });
+        }
+    }
+
     // ---------------------------------------------------------------- C02: index.ts re-exports the files of the same run, not what an earlier run left behind
     for mode in ["none", "zod"] {
         rep.case("index_reexports_the_files_of_the_same_run", &format!("--validation {} second run after the only emit was removed", mode), &|| {
@@ -231,7 +257,7 @@ fn main() {
             let (code, text) = run(&cli, &p, &["generate", "--project-path", pp.to_str().unwrap(), "--output-path", gp.to_str().unwrap(), "--validation", mode, "--force"])?;
             if code != 0 { return Err(format!("the first run ended with status {}: {}", code, text.chars().take(200).collect::<String>())); }
             if !gp.join("events.ts").exists() { return Err("UNPARSED: the first run wrote no events.ts".into()); }
-            fs::write(pp.join("src/lib.rs"), LIB_EDIT.replacen("app.emit(\"saved\", retry_count).ok(); ", "", 1)).map_err(|e| e.to_string())?;
+            fs::write(pp.join("src/lib.rs"), LIB_EDIT.replacen("app.emit(\"saved\", retry_count).ok(); ", "", 1).replacen("app.emit(\"saved\", again_count).ok();", "", 1)).map_err(|e| e.to_string())?;
             for (dir, label) in [(&gp, "second"), (&fp, "fresh")] {
                 let (code, text) = run(&cli, &p, &["generate", "--project-path", pp.to_str().unwrap(), "--output-path", dir.to_str().unwrap(), "--validation", mode, "--force"])?;
                 if code != 0 { return Err(format!("the {} run ended with status {}: {}", label, code, text.chars().take(200).collect::<String>())); }
@@ -268,6 +294,8 @@ fn main() {
         ("incremental_run_sees_event_edits", "event name", "\"saved\"", "\"stored\""),
         ("incremental_run_sees_event_edits", "payload", "emit(\"saved\", retry_count)", "emit(\"saved\", user_name.clone())"),
         ("incremental_run_sees_event_edits", "second emit", "todo!()", "app.emit(\"done\", true).ok(); todo!()"),
+        ("incremental_run_sees_event_edits", "payload type of the second site of an event", "again_count: u32", "again_count: String"),
+        ("incremental_run_sees_event_edits", "second site of an event removed", "app.emit(\"saved\", again_count).ok();", ""),
         ("incremental_run_sees_parameter_edits", "rename_all of the command", "#[tauri::command]\npub fn save", "#[tauri::command(rename_all = \"snake_case\")]\npub fn save"),
         ("incremental_run_sees_serde_edits", "rename_all_fields of the enum", "pub enum Shape", "#[serde(rename_all_fields = \"camelCase\")]\npub enum Shape"),
         ("incremental_run_sees_serde_edits", "field of a struct variant", "corner_radius: u32", "corner_size: u32"),
